@@ -1522,6 +1522,14 @@ pub fn suites_for(property: &str, thorough: bool) -> Vec<Suite> {
                 let depth = if thorough || matches!(f.pol(), Pol::Fifo | Pol::Lru) { 7 } else { 6 };
                 out.push(Suite { f, f2: None, group: vec![], wash: false, prune_noops: false, alphabet: a, depth });
             }
+            // group requests must leave every cache alone that does not declare the name asked for — also when that
+            // cache depends on one that does (names of caches used as dependencies: the `selfdep` group), and for the
+            // first groups of the metadata corpus
+            let mut groups = suites_for("C12", thorough);
+            let selfdep: Vec<Suite> = groups.iter().filter(|s| s.group.iter().any(|f| f.family == "selfdep")).cloned().collect();
+            groups.retain(|s| !s.group.iter().any(|f| f.family == "selfdep"));
+            out.extend(selfdep);
+            out.extend(groups.into_iter().take(if thorough { 16 } else { 6 }));
             for (i, f) in cands.iter().enumerate() {
                 let f2 = cands.get((i + 1) % cands.len()).copied();
                 let mut a = vec![MOp::Call(1), MOp::Call(2), MOp::Call(3)];
